@@ -136,7 +136,8 @@ func vfC19run(c *vfC19Case, gsfa bool, st map[string]int, outTx map[int][]string
 				req.Filter = &old_faithful_grpc.StreamBlocksFilter{AccountInclude: vfKeys(q.Include)}
 			}
 			out := &vfBlockStream{ctx: ctx}
-			err := l.multi.StreamBlocks(req, out)
+			var err error
+			vfWatched(where+": StreamBlocks", func() { err = l.multi.StreamBlocks(req, out) })
 			cancel()
 			if err != nil {
 				return fmt.Errorf("%s: StreamBlocks failed: %v", where, err)
@@ -190,7 +191,8 @@ func vfC19run(c *vfC19Case, gsfa bool, st map[string]int, outTx map[int][]string
 			req.Filter = &old_faithful_grpc.StreamTransactionsFilter{Vote: vote, Failed: failed, AccountInclude: vfKeys(q.Include), AccountExclude: vfKeys(q.Exclude), AccountRequired: vfKeys(q.Required)}
 		}
 		out := &vfTxStream{ctx: ctx}
-		err := l.multi.StreamTransactions(req, out)
+		var err error
+		vfWatched(where+": StreamTransactions", func() { err = l.multi.StreamTransactions(req, out) })
 		cancel()
 		if err != nil {
 			return fmt.Errorf("%s filter %+v: StreamTransactions failed: %v", where, q, err)
@@ -466,6 +468,7 @@ func vfC19genQuery(rt *rapid.T, retired []int) vfC19Query {
 func TestVfC19(t *testing.T) {
 	run := vfh.Begin("C19", "streams")
 	defer run.End(t)
+	vfArmWatch(run, "C19")
 	run.Require("tx-range-with-skipped-slot", "tx-filter-accepts-and-rejects", "blocks-range-with-skipped-slot", "range-across-epochs", "nontrivial", "include-account-absent-from-newer-epoch")
 	for _, p := range vfh.ReplayFiles("C19", "streams") {
 		var c vfC19Case
